@@ -153,7 +153,8 @@ class LxPath:
                     out.pop()
             else:
                 out.append(s)
-        return self._mk("/" if p.anchor else "", out) if p.anchor != "//" else self._mk("//", out)
+        # realpath collapses a leading '//' to '/' (absolute() / abspath / normpath keep it)
+        return self._mk("/" if p.anchor else "", out)
 
     def is_relative_to(self, other, *more):
         other = LxPath(other, *more)
@@ -433,7 +434,9 @@ def selftest():
                             ("join2", str(_pl.PurePosixPath("/s/t").joinpath(_pl.PurePosixPath(text.strip("/")))) if text.strip("/") else None,
                              str(LxPath("/s/t").joinpath(LxPath(text.strip("/")))) if text.strip("/") else None),
                             ("normpath", _os.path.normpath(text), OsPathShim().normpath(S(text)) if False else str(_normpath(LxPath(text))) if not text.startswith("//") or text.startswith("///") else None),
-                            ("resolve", _os.path.normpath(str(real if real.is_absolute() else _pl.PurePosixPath(cwd) / real)), str(m.resolve())),
+                            ("resolve", _os.path.realpath(str(real if real.is_absolute() else _pl.PurePosixPath(cwd) / real)), str(m.resolve())),
+                            ("realpath", _os.path.realpath(_os.path.join(cwd, text)), str(OsPathShim.realpath(OsPathShim(), _Sym(text)))),
+                            ("abspath", _os.path.abspath(_os.path.join(cwd, text)), str(OsPathShim.abspath(OsPathShim(), _Sym(text)))),
                             ("rel", real.is_relative_to("/var/tmp") if real.is_absolute() else None,
                              m.is_relative_to("/var/tmp") if real.is_absolute() else None),
                             ("dirname", _os.path.dirname(text), str(OsPathShim.dirname(OsPathShim(), _Sym(text)))),
